@@ -1669,6 +1669,98 @@ end DpapiNg.Gen
     return out
 
 
+# ---------------------------------------------------------------------------------------------
+# Third-party call shapes: the arguments a `_crypto.py` wrapper hands to `cryptography` (which the model abstracts as a parameter of
+# `Crypto`) are regenerated as a sorted (argument, source expression) table: positional `#i`, keywords by name, `local:x` for the
+# expression a passed-on local was assigned from, `return` for the returned expression when it is not the call itself.
+def CK(name, props, func, callee, model, with_return=False):
+    return dict(name=name, props=props, file="_crypto.py", func=func, kind="callkw", loc=("callkw", callee), model=model, callee=callee,
+                with_return=with_return, imports=["Model.Crypto"], typ="List (String × String)")
+
+
+KERNELS += [
+    CK("CallKbkdf", ["C02", "C03"], "kdf", "KBKDFHMAC", "CryptoCalls.kbkdf", with_return=True),
+    CK("CallConcatKdf", ["C03"], "kdf_concat", "ConcatKDFHash", "CryptoCalls.concatKdf", with_return=True),
+    CK("CallCekGenerateKey", ["C19", "C01"], "cek_generate", "AESGCM.generate_key", "CryptoCalls.cekGenerateKey"),
+    CK("CallCekGenerateNonce", ["C19", "C01"], "cek_generate", "os.urandom", "CryptoCalls.cekGenerateNonce"),
+    CK("CallGcmDecrypt", ["C04", "C01"], "content_decrypt", "cipher.decrypt", "CryptoCalls.gcmDecrypt"),
+    CK("CallGcmEncrypt", ["C01", "C19"], "content_encrypt", "cipher.encrypt", "CryptoCalls.gcmEncrypt"),
+    CK("CallKeyUnwrap", ["C04", "C01"], "cek_decrypt", "keywrap.aes_key_unwrap", "CryptoCalls.keyUnwrap"),
+    CK("CallKeyWrap", ["C01"], "cek_encrypt", "keywrap.aes_key_wrap", "CryptoCalls.keyWrap"),
+]
+
+
+def callkw_table(fn, callee, with_return):
+    calls = [n for n in ast.walk(fn) if isinstance(n, ast.Call) and ast.unparse(n.func) == callee]
+    if len(calls) != 1:
+        raise Unsupported(f"{len(calls)} calls to {callee}")
+    call = calls[0]
+    rows = [(f"#{i}", ast.unparse(a)) for i, a in enumerate(call.args)]
+    for kw in call.keywords:
+        if kw.arg is None:
+            raise Unsupported("**kwargs")
+        rows.append((kw.arg, ast.unparse(kw.value)))
+    names = {n.id for a in list(call.args) + [kw.value for kw in call.keywords] for n in ast.walk(a) if isinstance(n, ast.Name)}
+    if isinstance(call.func, ast.Attribute) and isinstance(call.func.value, ast.Name):
+        names.add(call.func.value.id)
+    params = {a.arg for a in fn.args.args}
+    for st in ast.walk(fn):
+        if isinstance(st, ast.Assign) and len(st.targets) == 1 and isinstance(st.targets[0], ast.Name) and st.targets[0].id in names - params \
+                and st.value is not call:
+            rows.append((f"local:{st.targets[0].id}", ast.unparse(st.value)))
+    if with_return:
+        rets = [n for n in ast.walk(fn) if isinstance(n, ast.Return)]
+        if len(rets) != 1 or rets[0].value is None:
+            raise Unsupported("return statements")
+        rows.append(("return", ast.unparse(rets[0].value)))
+    for k_, v_ in rows:
+        if not all(32 <= ord(ch) < 127 for ch in k_ + v_):
+            raise Unsupported("non-ASCII source text")
+    return sorted(rows)
+
+
+def generate_callkw(k: dict) -> dict:
+    path = os.path.join(SRC, k["file"])
+    out = {"name": k["name"], "file": k["file"], "func": k["func"]}
+    try:
+        tree = ast.parse(open(path).read())
+        fn = find_function(tree, k["func"])
+        out["line"] = fn.lineno
+        rows = callkw_table(fn, k["callee"], k["with_return"])
+        out["python"] = f"{k['func']}: call to {k['callee']} with {len(rows)} recorded argument(s)"
+    except (Unsupported, OSError, SyntaxError, ValueError, LookupError) as e:
+        out["status"] = "unsupported"
+        out["reason"] = f"{type(e).__name__}: {e}"
+        p = os.path.join(GEN_DIR, k["name"] + ".lean")
+        if os.path.exists(p):
+            os.remove(p)
+        return out
+    name = k["name"]
+    q = lambda t: '"' + t.replace("\\", "\\\\").replace('"', '\\"') + '"'
+    body = "[" + ", ".join(f"({q(a)}, {q(b)})" for a, b in rows) + "]"
+    lean = f"""-- GENERATED by harness/extract.py from src/dpapi_ng/{k['file']}:{out['line']} ({k['func']}) — do not edit.
+import DpapiNg.Model.Crypto
+namespace DpapiNg.Gen
+open DpapiNg
+
+def {name} : List (String × String) :=
+  {body}
+
+theorem {name}_eq : {name} = {k['model']} := by
+  decide
+
+end DpapiNg.Gen
+"""
+    os.makedirs(GEN_DIR, exist_ok=True)
+    p = os.path.join(GEN_DIR, name + ".lean")
+    old = open(p).read() if os.path.exists(p) else None
+    if old != lean:
+        with open(p, "w") as f:
+            f.write(lean)
+    out.update(status="generated", lean_path=p, lean_def=body, module=f"DpapiNg.Gen.{name}", sha=hashlib.sha256(lean.encode()).hexdigest()[:16])
+    return out
+
+
 def register(k: dict) -> None:
     KERNELS.append(k)
 
@@ -1693,6 +1785,8 @@ def generate(k: dict) -> dict:
         return generate_rprog(k)
     if k.get("kind") == "flayout":
         return generate_flayout(k)
+    if k.get("kind") == "callkw":
+        return generate_callkw(k)
     path = os.path.join(SRC, k["file"])
     out = {"name": k["name"], "file": k["file"], "func": k["func"]}
     try:
